@@ -4,14 +4,17 @@
 # Each patch is applied to a scratch copy of /repo outside /repo and /verif; the properties listed for it in
 # selftest/expected.json must report a VIOLATION (must-fail) or must stay quiet (must-pass, key "harmless").
 set -u
-cd /verif
+V="${VERIF_DIR:-/verif}"   # a frozen copy of /verif (and SELFTEST_REPO, of /repo) lets the self-test run while contracts are being edited
+SRC="${SELFTEST_REPO:-/repo}"
+export VERIF_DIR="$V"
+cd "$V"
 PAT="${1:-.}"
 FAIL=0
 export GOFLAGS=-mod=mod GOPROXY=off GOSUMDB=off GOTOOLCHAIN=local
 run_one() {
   local patch="$1" props="$2" expect="$3"
   local S; S=$(mktemp -d /tmp/selftest.XXXXXX)
-  rsync -a --exclude .git /repo/ "$S/repo/"
+  rsync -a --exclude .git "$SRC/" "$S/repo/"
   if ! (cd "$S/repo" && patch -p1 -s < "$patch"); then echo "SELFTEST $patch: PATCH DOES NOT APPLY"; rm -rf "$S"; return 1; fi
   if ! (cd "$S/repo" && go build ./... >/dev/null 2>&1); then echo "SELFTEST $patch: does not compile"; rm -rf "$S"; return 1; fi
   local rc=0
@@ -28,18 +31,20 @@ run_one() {
   rm -rf "$S"
   return $rc
 }
-python3 - "$PAT" <<'PY' > /tmp/selftest.list
+LIST=$(mktemp /tmp/selftest.list.XXXXXX)
+python3 - "$PAT" "$V" <<'PY' > $LIST
 import json,sys,re,os
-exp=json.load(open('/verif/selftest/expected.json'))
+V=sys.argv[2]
+exp=json.load(open(os.path.join(V,'selftest/expected.json')))
 pat=re.compile(sys.argv[1])
 for k,v in sorted(exp.items()):
     if not pat.search(k): continue
-    path=os.path.join('/verif',k)
+    path=os.path.join(V,k)
     if not os.path.exists(path): continue
     print(path+'|'+' '.join(v['props'])+'|'+v.get('expect','fail'))
 PY
 while IFS='|' read -r patch props expect; do
   run_one "$patch" "$props" "$expect" || FAIL=1
-done < /tmp/selftest.list
-rm -f /tmp/selftest.list
+done < $LIST
+rm -f $LIST
 exit $FAIL
